@@ -125,7 +125,10 @@ func (nm LNumber) Format(f fmt.State, c rune) {
 	switch c {
 	case 'q', 's':
 		defaultFormat(nm.String(), f, c)
-	case 'b', 'c', 'd', 'o', 'x', 'X', 'U':
+	case 'o', 'x', 'X':
+		// C converts the argument of an unsigned conversion to unsigned (two's complement)
+		defaultFormat(uint64(int64(nm)), f, c)
+	case 'b', 'c', 'd', 'U':
 		defaultFormat(int64(nm), f, c)
 	case 'e', 'E', 'f', 'F', 'g', 'G':
 		defaultFormat(float64(nm), f, c)
